@@ -182,4 +182,7 @@ func TestVerifReplay_PipelineService(t *testing.T) {
 		}
 	}
 	t.Logf("driver: %d operation sequences, none disagrees with the reference", n)
+	if sp := os.Getenv("VERIF_REPLAY_STATS"); sp != "" {
+		os.WriteFile(sp, []byte(fmt.Sprintf(`{"cases": %d}`, n)), 0o644)
+	}
 }
